@@ -126,7 +126,9 @@ fn enumerate_scripts() {
             *cases += 1;
             if nontrivial { *distinct += 1; }
             if let Err(m) = one(script, addr, count, exact, wd) {
-                if fails.len() < 5 { fails.push(format!("script={:?} addr={} count={} exact={} write_dir={}: {}", script, addr, count, exact, wd, m)); }
+                // a zero-count transfer that misbehaves is (also) C18's subject: keep one of those even when the list is full
+                let z = if count == 0 { "[zero-count] " } else { "" };
+                if fails.len() < 5 || (count == 0 && !fails.iter().any(|f| f.starts_with("[zero-count]"))) { fails.push(format!("{}script={:?} addr={} count={} exact={} write_dir={}: {}", z, script, addr, count, exact, wd, m)); }
             }
         } } } }
         if script.len() < maxk {
@@ -138,7 +140,7 @@ fn enumerate_scripts() {
     println!("DISTINCT {}", distinct);
     // C13's exact variants ("succeed precisely when std's read_exact / write_all would", "move the same
     // bytes") are decided by the same enumeration
-    for f in &fails { println!("FAIL: C14 {}", f); println!("FAIL: C13 {}", f); }
+    for f in &fails { println!("FAIL: C14 {}", f); println!("FAIL: C13 {}", f); if f.starts_with("[zero-count]") { println!("FAIL: C18 {}", f); } }
     assert!(fails.is_empty());
 }
 
